@@ -311,6 +311,32 @@ def rule_P3(ctx):
     ctx.ob("P3", fn, "the channel count is taken after the right streams were added", ok, f"{order}", inst="count-after-add")
 
 
+def rule_P9(ctx):
+    """uniqueness of output paths (C06): a merged left/right pair is exported under the common stem; the stem must not be the export name
+    of another sample of the same directory (`PAD -L`, `PAD -R` next to a mono `PAD`), or two samples are written to one path.  On every
+    path that merges a pair the stem is looked up among the names in use before it is given to the merged sample"""
+    fn = ctx.fn(ST, "Image.combine_stereo_routine", "P9")
+    n_merge = 0
+    ok = True
+    for p in run_paths(ctx, fn, rule="P9", limit=6000):
+        merges = [(c_, e_) for c_, e_, st_ in calls_on(p, name="combine_stereo")]
+        if not merges:
+            continue
+        n_merge += 1
+        c_, e_ = merges[0]
+        stem = evaluator(ctx, fn, e_).ev(c_.args[2]).key().replace("~", "") if len(c_.args) > 2 else (
+            next((evaluator(ctx, fn, e_).ev(k_.value).key().replace("~", "") for k_ in c_.keywords if k_.arg == "new_name"), None))
+        checked = any(re.search(r"\bIn\(" + re.escape(stem or "?") + r",", c2_.replace("~", "")) or re.search(r"\bNotIn\(" + re.escape(stem or "?") + r",", c2_.replace("~", ""))
+                      for c2_, t_, _n in p.conds)
+        if not checked:
+            ok = False
+    if n_merge == 0:
+        raise AnalysisError("P9", where(fn), "no path merges a stereo pair (anchor vanished)")
+    ctx.ob("P9", fn, "the name of a merged stereo pair is checked against the other names of the directory before it is used", ok,
+           "" if ok else "the common stem is used as it is: `PAD -L`, `PAD -R` and a mono `PAD` in one directory are both exported to PAD.wav (the second write replaces the first)",
+           inst="stem-unchecked")
+
+
 # ------------------------------------------------------------------------ P4
 def _list_domain(node, env):
     """STREAM / CHANNEL / None for a list-valued expression"""
